@@ -247,3 +247,12 @@ def r6(ctx):
                 kept.append('store at line %d' % s.span['line'])
         ctx.require(not kept, b, 'detached', 'the thread spawned at line %d is detached (its JoinHandle is dropped)' % t.span['line'],
                     'the JoinHandle of the thread spawned at line %d is kept (%s): whoever waits on it blocks with the producer' % (t.span['line'], ', '.join(kept)), t.span)
+
+
+@rule('C09', 'R-C09-7', 'prerequisite (the consumer takes one item per call)',
+      'Pipe::next is a single blocking receive (R-C05-4 re-evaluated): a consumer that also drains the channel into a private queue '
+      '(`ready.extend(rx.try_iter())`) frees up to num_threads slots per call while handing out one item, so the number of upstream items pulled '
+      'ahead grows with every call instead of staying bounded by channel capacity + workers')
+def r7(ctx):
+    from rules import c05
+    c05.r4(ctx)
